@@ -1561,7 +1561,8 @@ impl<'a> Ctx<'a> {
                 return Some(Stmt::Raw(src.split_whitespace().map(|t| t.to_string()).collect()));
             }
             0 => {
-                // q <-- a / b with 0..2 IsZero guards on b
+                // q <-- a / b with 0..2 IsZero guards on b (now and then b is a constant)
+                let b = if self.rng.chance(1, 4) { Expr::Num(format!("{}", 2 + self.rng.usize(5))) } else { b };
                 let q = format!("quot{id}");
                 stmts.push(Stmt::Decl {
                     kw: DeclKw::Signal { io: None, tags: vec![] },
@@ -2201,14 +2202,14 @@ pub fn gen_project(rng: &mut Rng, k: &Knobs, shape: &ProjectShape) -> Project {
             defs.push(d);
         }
     }
-    let odd_pick = if k.odd_file_names { rng.usize(6) } else { 0 };
+    let odd_pick = if k.odd_file_names { rng.usize(9) } else { 0 };
     // Distribute definitions over files; file 0 is the root that (transitively) includes the others.
     let mut files: Vec<FileUnit> = (0..n_files)
         .map(|i| FileUnit {
             path: if !k.odd_file_names {
                 if i == 0 { "main.circom".to_string() } else { format!("lib{i}.circom") }
             } else {
-                let stem = ["main circuit", "lib#1", "lïb%20two", "a+b (copy)", "Ünïcode", "x=y&z"][(i + odd_pick) % 6];
+                let stem = ["main circuit", "lib#1", "lïb%20two", "a+b (copy)", "Ünïcode", "x=y&z", "v1 – final", "it’s €", "[draft]?"][(i + odd_pick) % 9];
                 if i == 0 { format!("{stem}.circom") } else { format!("{stem} {i}.circom") }
             },
             pragma: None,
